@@ -9,6 +9,7 @@ from sa.facts import callee_name, norm
 
 
 def rules(ctx):
+    ctx.rule("FCH-1", "the first char of a grapheme's text is used for the whole grapheme only under a single-code-point test (locally or at every call site of the extracting function)")
     ctx.rule("CHR-1", "every assignment to the string entries of a grapheme is an element-wise map of the same entries (the entry is the unit of escaping)")
     ctx.rule("CNT-1", "the code-point counter behind the single-code-point test measures every unit it counts; a constant count needs a dominating length fact")
     ctx.rule("CNT-2", "every length measurement behind the single-code-point test counts chars (Chars/CharIndices::count, or the length of an ASCII escaper result)")
@@ -173,3 +174,76 @@ def chr1(ctx, lib):
                 else:
                     ctx.undecided(rid, b.path, "cannot tell whether the assignment to `%s` keeps one entry per old entry: %s" % (fld, local.show(o)[:100]), b.loc(s_.get("line")))
     ctx.floor(rid, "assignments to the string entries of a grapheme", n, 1)
+
+
+def fch1(ctx, lib):
+    """FCH-1: wherever the first char of a grapheme's text stands for the whole grapheme (`value().chars().next()` feeding a set of chars), the grapheme is known to be a single
+    code point: the extraction sits in a function whose every call is dominated by the single-code-point predicate on the same expression, or is itself dominated by a
+    comparison of the code-point counter with 1.  Otherwise a grapheme of several code points (flag emoji, emoji + skin tone, conjoining jamo) is reduced to its first one."""
+    from sa import guards
+    rid = "FCH-1"
+    EXPR = "expression::Expression"
+    single = set()
+    for pb in lib.bodies:
+        if pb.kind == "assoc_fn" and pb.sig_inputs == ["&" + EXPR] and pb.sig_output == "bool":
+            d = local.Defs(pb)
+            for _, blk in pb.iter_blocks():
+                for st in blk["stmts"]:
+                    if st["k"] == "assign" and st["rv"]["k"] == "binop" and st["rv"]["op"] == "Eq":
+                        for side in ("a", "b"):
+                            o = local.peel(d.operand(st["rv"][side]))
+                            if o[0] == "call" and lib.body(o[1]) is not None and lib.body(o[1]).sig_output == "usize":
+                                single.add(pb.path)
+    n = 0
+    for b in lib.bodies:
+        if b.derived or b.from_expansion:
+            continue
+        fi = None
+        for bi, t in b.calls():
+            if not (callee_name(t) or "").endswith("str::Chars as std::iter::Iterator>::next"):
+                continue
+            fi = fi or guards.FnInfo.of(b)
+            o = fi.defs.operand(t["args"][0])
+            from_value = [x for x in local.walk(o) if x[0] == "call" and lib.body(x[1]) is not None and lib.body(x[1]).sig_inputs == ["&grapheme::Grapheme"]
+                          and lib.body(x[1]).sig_output == "std::string::String"]
+            if not from_value:
+                continue
+            if any(x[0] == "call" and x[3] == bi for h, body in fi.cfg.natural_loops().items() for x in [("call", "", [], bi)] if bi in body and False):
+                continue
+            n += 1
+            root = lib.body(b.parent) if b.kind == "closure" and b.parent and lib.body(b.parent) is not None else b
+            # (b) guarded locally by a counter == 1
+            local_ok = False
+            gs = list(guards.guards(b, bi))
+            if root is not b:
+                # a closure: the tests that dominate its creation in the enclosing function hold inside it as well
+                for rbi, rblk in root.iter_blocks():
+                    for st in rblk["stmts"]:
+                        if st["k"] == "assign" and st["rv"]["k"] == "aggregate" and st["rv"].get("agg") == "closure" and norm(st["rv"].get("closure") or "") == b.path:
+                            gs.extend(guards.guards(root, rbi))
+            for g in gs:
+                og = local.peel(g["origin"])
+                if og[0] == "binop" and og[1] == "Eq" and guards.edge_truth(g) is True and any(local.const_value(local.peel(x)) == 1 for x in og[2:4]) \
+                        and any(y[0] == "call" and lib.body(y[1]) is not None and lib.body(y[1]).sig_output == "usize" and "char" in y[1] for x in og[2:4] for y in local.walk(x)):
+                    local_ok = True
+                if og[0] == "call" and og[1] in single and guards.edge_truth(g) is True:
+                    local_ok = True
+            # (a) every call of the enclosing function is dominated by the single-code-point predicate
+            sites = guards.call_sites(lib, root.path)
+            callers_ok = bool(sites)
+            for cb, cbi, ct in sites:
+                fic = guards.FnInfo.of(cb)
+                okc = False
+                for g in guards.guards(cb, cbi):
+                    og = local.peel(g["origin"])
+                    if og[0] == "call" and og[1] in single and guards.edge_truth(g) is True and fic.cfg.edge_dominates(g["block"], g["succ"], cbi):
+                        okc = True
+                if not okc:
+                    callers_ok = False
+            if local_ok or callers_ok:
+                ctx.ok(rid, "%s:first char of a grapheme under a single-code-point test" % b.path, {"via": "local guard" if local_ok else "guards at all %d call sites" % len(sites)}, b.loc(t.get("line")))
+            else:
+                ctx.violation(rid, (b.path, "first char of a grapheme"), "the first char of a grapheme's text is taken for the whole grapheme without a test that the grapheme is a single "
+                              "code point (a test on the number of graphemes is not one): a flag emoji or an emoji with a skin tone is reduced to its first code point, so the class "
+                              "matches neither the test case nor only the test cases", b.loc(t.get("line")))
+    ctx.floor(rid, "extractions of the first char of a grapheme", n, 1)
